@@ -57,24 +57,24 @@ const ENGINE_ASSUME: &[&str] = &[
 const ENGINE_RULE: &str = "one run = one seeded session plan on ONE engine instance: 1..8 cycles of [ucinewgame] position(startpos|fen, moves | follow engine's own bestmove+ponder | broken line) noise go(<any parameter subset/order>) in-search events (stop/quit/isready/debug/corrupted lines at chosen poll node counts, clock jumps, stop queued before go is dequeued) await bestmove; knobs (poll interval, TT capacity, ns per node) re-drawn per run; non-trivial = at least one search ran; distinct = distinct event-log hash (every line fed, parse result, output line with writing thread, park with node/ply/iteration, idle FEN)";
 
 pub const CHECKS: &[CheckDef] = &[
-    CheckDef { id: "C07", sim: "engine", sim_id: 7, quick_runs: 6_000, thorough_runs: 120_000, level: "exploration", rule: ENGINE_RULE, assumptions: ENGINE_ASSUME, real: ENGINE_REAL, stubbed: ENGINE_STUB, exit_on_violation: true },
-    CheckDef { id: "C16", sim: "engine", sim_id: 16, quick_runs: 6_000, thorough_runs: 120_000, level: "exploration", rule: ENGINE_RULE, assumptions: ENGINE_ASSUME, real: ENGINE_REAL, stubbed: ENGINE_STUB, exit_on_violation: true },
-    CheckDef { id: "C11", sim: "symmetry", sim_id: 11, quick_runs: 4_000, thorough_runs: 100_000, level: "exploration", rule: "odd runs (BoardSim, focus C11): seeded operation histories in which the static evaluation (through the hook) of every visited position is compared with minus the evaluation of its colour-flipped twin, terminal positions included (mated side negative, stalemate = draw score); even runs (EngineSim twin mode): engine A plays a session of 2..9 `position; go depth 1..3 | mate cycles` and engine B the colour-flipped session (FENs flipped, every move mirrored), each with the C08 exactness oracle on, and the reported score lines (cp / mate N) must be identical cycle by cycle; distinct = distinct event-log hash", assumptions: ENGINE_ASSUME, real: ENGINE_REAL, stubbed: ENGINE_STUB, exit_on_violation: true },
-    CheckDef { id: "C10", sim: "draw", sim_id: 10, quick_runs: 3_000, thorough_runs: 80_000, level: "exploration", rule: "3 of 4 runs (EngineSim): a session of 2..8 cycles `position <imbalanced FEN with half-move clock 0..150> moves <shuffle-biased legal history, 0..24 plies>; go depth 1 searchmoves m | go depth 1..3`; the reported score must lie between the reference depth-d values computed with repetition leaves (>= 3 occurrences within the irreversible-move window, history + line) valued -contempt and +contempt and with a fifty-move leaf value only from clock 100 on (equality when no draw leaf is in reach); 1 of 4 runs (RepSim): seeded hash histories with irreversible-move marks fed to ZobristHistory::set/count_repetitions through the hook and compared with reference occurrence counting, start indices 0..4990; non-trivial = at least one comparison; distinct = distinct event-log hash", assumptions: ENGINE_ASSUME, real: ENGINE_REAL, stubbed: ENGINE_STUB, exit_on_violation: true },
-    CheckDef { id: "C17", sim: "stream", sim_id: 17, quick_runs: 30_000, thorough_runs: 1_000_000, level: "exploration", rule: "one run = 1..8 games produced by the reference model (legal random play biased towards castling by both sides, promotions, checks, mates; a quarter of them from-position games with a [FEN] tag), written in the Lichess export layout (tag lines, blank line, one-line movetext with move numbers, N... after comments, {clock/eval/free-text} comments, every result token, 0/1/2 trailing newlines) and read through PgnRawParser::with_chunk_size(chunk in {1,2,3,5,8,64,8192,len-1,len,len+1,random}) over a Read that fragments its answers according to the plan (1-byte reads, short reads, shrinking-then-growing reads, random sizes); verdict = (1) yielded games == generated games (tags as a map, SAN and comments verbatim), (2) same result as one read of the whole input, (3) replaying the yielded SAN through pgn_to_bb reaches the reference final position; source truncation and ErrorKind::Interrupted are observational only; non-trivial = at least one move; distinct = distinct hash of (text, chunk size, read pattern)", assumptions: &["reference model produces legal games and canonical SAN (self-tested); harness PGN writer follows the Lichess export layout", "tag values and comments are ASCII without quotes/braces (non-ASCII text is outside what the byte-wise reader is specified for)", "the property quantifies over fragmentations of a COMPLETE input; truncated sources and Interrupted reads are reported in the evidence, never as a verdict"], real: &["inkayaku_pgn::reader::PgnRawParser (ensure_buffer, tokeniser, tag/move/comment readers, Iterator)", "inkayaku_board::Bitboard::pgn_to_bb + make (replay, as pgn_test/src/main.rs does)"], stubbed: &["the file / zstd stream behind Read (FragReader serves the bytes according to the plan)", "pgn_test binary (its replay loop is reproduced by the harness)"], exit_on_violation: false },
-    CheckDef { id: "C19", sim: "api", sim_id: 19, quick_runs: 12_000, thorough_runs: 400_000, level: "exploration", rule: "one run = one simulated HTTP response body on the game stream (reference game of 0..300 moves incl. castling and promotions: gameFull once, gameState per move, chatLine / opponentGone interleaved) or on the event stream (gameStart, gameFinish, challenge, challengeCanceled, challengeDeclined); every optional field independently present/absent, every enumerated key cycled, string fields with JSON escapes / \\uXXXX / non-ASCII, random key order; the bytes are released in planned fragments (1, 2, 3.. bytes, inside UTF-8 sequences and escapes, between CR and LF) through a BufReader of capacity 1..8192 with keep-alive blank lines and Poll::Pending gaps; verdict = item count and order, every transmitted value found in the decoded value, move list element by element, each move accepted by UciMove::from_str, replay with make_uci gives the reference side to move, result equal to single-fragment delivery; distinct = distinct hash of (documents, fragmentation, buffer capacity)", assumptions: &["document shapes written from the Lichess Bot API documentation as remembered (no network here): only fields and keys I am certain of are verdict-bearing; `rules` is sent in the comma-separated form the decoder is written for", "futures::executor::block_on single-threaded; the reader's wake-ups are immediate so the execution is a function of the plan"], real: &["inkayaku_lichess_api::api::SurfWebClient::stream (line reassembly, blank-line skipping)", "BotApi::stream_bot_game_state / stream_incoming_events (serde models BotGameState / BotEvent)", "surf client + http-types Body/Response (real library code above the transport seam)", "inkayaku_uci::UciMove::from_str, inkayaku_board::Bitboard::make_uci (consumer logic of lichess_bot::GameThread re-applied by the harness)"], stubbed: &["TCP/TLS/HTTP transport (surf::Config::set_http_client -> SimHttp)", "lichess_bot::GameThread and main (private module of a binary crate; not executed)"], exit_on_violation: false },
-    CheckDef { id: "C18", sim: "table", sim_id: 18, quick_runs: 40_000, thorough_runs: 2_000_000, level: "exploration", rule: "one run = one seeded history of 10..400 put/get/clear/len operations on a HashTable<ZobristHash,u64> of capacity 1..16 over a key universe of 2..40 keys (dense or spread over 64 bits; re-insertion of present and of evicted keys is the norm; every written value unique), compared after EVERY operation with a reference insertion-ordered FIFO map: every live key reads its value, every evicted/cleared key reads nothing, len <= capacity, load_factor = len/capacity; non-trivial = >= 5 operations; distinct = distinct hash of the key sequence", assumptions: &["reference FIFO map (a vector) is correct", "no schedule exists: the table is owned by the search thread alone; the simulated dimension is the operation history; the cache-size knob inside real searches is exercised by the EngineSim checks (TT capacity 1..1024, hashfull <= 1000 enforced by the output grammar, C08 exactness independent of capacity)"], real: &["inkayaku_engine_core::engine::table::HashTable<ZobristHash, u64> through the cfg-gated TableHandle"], stubbed: &["nothing"], exit_on_violation: false },
-    CheckDef { id: "C15", sim: "line", sim_id: 15, quick_runs: 4_000, thorough_runs: 120_000, level: "exploration", rule: "7 of 8 runs (LineSim): 300..600 command lines per run - grammar-generated with random spacing / parameter order / subsets, token- and byte-mutated (flip, drop, duplicate, swap, truncate, oversized numbers, bad move tokens, upper case, non-ASCII, duplicated go parameter), or arbitrary bytes - fed through the real ConsoleUciRx::start reader loop, each parse result compared with a reference parser (Exactly / MustErr / Unspecified), plus a 2048-triple slice of the 64x64x6 move-text space checked for display-parse round trip; 1 of 8 runs (EngineSim): a whole engine session whose lines travel through the same seam, so a panic kills the reader thread as in production and a misread shows by its effect; non-trivial = >= 10 lines; distinct = distinct hash of (line, parse result) sequence", assumptions: &["reference UCI parser sim/src/uciref.rs is correct (written from the UCI text and the behaviours pinned by the existing parser tests)", "separators are blanks only; tabs and grey-area syntax (signs, leading zeros, upper-case promotion letters) are classified Unspecified and only required not to panic and not to turn into a different command"], real: &["inkayaku_uci::console::ConsoleUciRx::start / read_next_command", "inkayaku_uci::parser::CommandParser", "inkayaku_uci::UciMove FromStr/Display", "inkayaku_core Square::from_chars, Fen::from_str"], stubbed: &["stdin (read closure)", "the engine behind on_command (LineSim runs); real engine in the EngineSim share"], exit_on_violation: true },
-    CheckDef { id: "C08", sim: "engine_exact", sim_id: 8, quick_runs: 2_400, thorough_runs: 60_000, level: "exploration", rule: "one run = one session of 2..9 cycles `position ...; go depth d` (d = 1..3, or 2N-1 on a position with a reference-proven mate in N) on ONE engine instance with randomised knobs (TT capacity down to 1, poll interval, node cost); after every cycle the reported score must equal the exact minimax value computed by the reference alpha-beta search (no TT/killers/PV reuse) with the engine's own static evaluation at the leaves, and the announced move must attain it; distinct = distinct event-log hash", assumptions: ENGINE_ASSUME, real: ENGINE_REAL, stubbed: ENGINE_STUB, exit_on_violation: true },
-    CheckDef { id: "C09", sim: "engine_interrupt", sim_id: 9, quick_runs: 96, thorough_runs: 3_000, level: "fault_enumeration", rule: "one run = one plan (position, go depth d, poll interval 512): a dry run yields the poll node counts p1<..<pn (every node count at which the abort flag can be observed); the plan is then executed once per p_i (all of them up to 400, evenly thinned above) and per interrupt kind (stop, quit, simulated-clock movetime expiry), each followed by go depth 1 WITHOUT position, two more interrupted searches and go depth 1 again; evaluations = interrupted sessions executed; distinct = distinct (plan, interruption point, kind) event-log hashes", assumptions: ENGINE_ASSUME, real: ENGINE_REAL, stubbed: ENGINE_STUB, exit_on_violation: true },
-    CheckDef { id: "C01", sim: "board", sim_id: 1, quick_runs: 24_000, thorough_runs: 400_000, level: "exploration", rule: BOARD_RULE, assumptions: BOARD_ASSUME, real: BOARD_REAL, stubbed: BOARD_STUB, exit_on_violation: false },
-    CheckDef { id: "C02", sim: "board", sim_id: 2, quick_runs: 24_000, thorough_runs: 400_000, level: "exploration", rule: BOARD_RULE, assumptions: BOARD_ASSUME, real: BOARD_REAL, stubbed: BOARD_STUB, exit_on_violation: false },
-    CheckDef { id: "C03", sim: "board", sim_id: 3, quick_runs: 24_000, thorough_runs: 400_000, level: "exploration", rule: BOARD_RULE, assumptions: BOARD_ASSUME, real: BOARD_REAL, stubbed: BOARD_STUB, exit_on_violation: false },
-    CheckDef { id: "C05", sim: "board", sim_id: 5, quick_runs: 24_000, thorough_runs: 400_000, level: "exploration", rule: BOARD_RULE, assumptions: BOARD_ASSUME, real: BOARD_REAL, stubbed: BOARD_STUB, exit_on_violation: false },
-    CheckDef { id: "C06", sim: "board", sim_id: 6, quick_runs: 24_000, thorough_runs: 400_000, level: "exploration", rule: BOARD_RULE, assumptions: BOARD_ASSUME, real: BOARD_REAL, stubbed: BOARD_STUB, exit_on_violation: false },
-    CheckDef { id: "C12", sim: "board", sim_id: 12, quick_runs: 24_000, thorough_runs: 400_000, level: "exploration", rule: BOARD_RULE, assumptions: BOARD_ASSUME, real: BOARD_REAL, stubbed: BOARD_STUB, exit_on_violation: false },
-    CheckDef { id: "C13", sim: "board", sim_id: 13, quick_runs: 24_000, thorough_runs: 400_000, level: "exploration", rule: BOARD_RULE, assumptions: BOARD_ASSUME, real: BOARD_REAL, stubbed: BOARD_STUB, exit_on_violation: false },
-    CheckDef { id: "C14", sim: "board", sim_id: 14, quick_runs: 16_000, thorough_runs: 300_000, level: "exploration", rule: BOARD_RULE, assumptions: BOARD_ASSUME, real: BOARD_REAL, stubbed: BOARD_STUB, exit_on_violation: false },
+    CheckDef { id: "C07", sim: "engine", sim_id: 7, quick_runs: 10000, thorough_runs: 200000, level: "exploration", rule: ENGINE_RULE, assumptions: ENGINE_ASSUME, real: ENGINE_REAL, stubbed: ENGINE_STUB, exit_on_violation: true },
+    CheckDef { id: "C16", sim: "engine", sim_id: 16, quick_runs: 10000, thorough_runs: 200000, level: "exploration", rule: ENGINE_RULE, assumptions: ENGINE_ASSUME, real: ENGINE_REAL, stubbed: ENGINE_STUB, exit_on_violation: true },
+    CheckDef { id: "C11", sim: "symmetry", sim_id: 11, quick_runs: 12000, thorough_runs: 200000, level: "exploration", rule: "odd runs (BoardSim, focus C11): seeded operation histories in which the static evaluation (through the hook) of every visited position is compared with minus the evaluation of its colour-flipped twin, terminal positions included (mated side negative, stalemate = draw score); even runs (EngineSim twin mode): engine A plays a session of 2..9 `position; go depth 1..3 | mate cycles` and engine B the colour-flipped session (FENs flipped, every move mirrored), each with the C08 exactness oracle on, and the reported score lines (cp / mate N) must be identical cycle by cycle; distinct = distinct event-log hash", assumptions: ENGINE_ASSUME, real: ENGINE_REAL, stubbed: ENGINE_STUB, exit_on_violation: true },
+    CheckDef { id: "C10", sim: "draw", sim_id: 10, quick_runs: 16000, thorough_runs: 300000, level: "exploration", rule: "3 of 4 runs (EngineSim): a session of 2..8 cycles `position <imbalanced FEN with half-move clock 0..150> moves <shuffle-biased legal history, 0..24 plies>; go depth 1 searchmoves m | go depth 1..3`; the reported score must lie between the reference depth-d values computed with repetition leaves (>= 3 occurrences within the irreversible-move window, history + line) valued -contempt and +contempt and with a fifty-move leaf value only from clock 100 on (equality when no draw leaf is in reach); 1 of 4 runs (RepSim): seeded hash histories with irreversible-move marks fed to ZobristHistory::set/count_repetitions through the hook and compared with reference occurrence counting, start indices 0..4990; non-trivial = at least one comparison; distinct = distinct event-log hash", assumptions: ENGINE_ASSUME, real: ENGINE_REAL, stubbed: ENGINE_STUB, exit_on_violation: true },
+    CheckDef { id: "C17", sim: "stream", sim_id: 17, quick_runs: 100000, thorough_runs: 3000000, level: "exploration", rule: "one run = 1..8 games produced by the reference model (legal random play biased towards castling by both sides, promotions, checks, mates; a quarter of them from-position games with a [FEN] tag), written in the Lichess export layout (tag lines, blank line, one-line movetext with move numbers, N... after comments, {clock/eval/free-text} comments, every result token, 0/1/2 trailing newlines) and read through PgnRawParser::with_chunk_size(chunk in {1,2,3,5,8,64,8192,len-1,len,len+1,random}) over a Read that fragments its answers according to the plan (1-byte reads, short reads, shrinking-then-growing reads, random sizes); verdict = (1) yielded games == generated games (tags as a map, SAN and comments verbatim), (2) same result as one read of the whole input, (3) replaying the yielded SAN through pgn_to_bb reaches the reference final position; source truncation and ErrorKind::Interrupted are observational only; non-trivial = at least one move; distinct = distinct hash of (text, chunk size, read pattern)", assumptions: &["reference model produces legal games and canonical SAN (self-tested); harness PGN writer follows the Lichess export layout", "tag values and comments are ASCII without quotes/braces (non-ASCII text is outside what the byte-wise reader is specified for)", "the property quantifies over fragmentations of a COMPLETE input; truncated sources and Interrupted reads are reported in the evidence, never as a verdict"], real: &["inkayaku_pgn::reader::PgnRawParser (ensure_buffer, tokeniser, tag/move/comment readers, Iterator)", "inkayaku_board::Bitboard::pgn_to_bb + make (replay, as pgn_test/src/main.rs does)"], stubbed: &["the file / zstd stream behind Read (FragReader serves the bytes according to the plan)", "pgn_test binary (its replay loop is reproduced by the harness)"], exit_on_violation: false },
+    CheckDef { id: "C19", sim: "api", sim_id: 19, quick_runs: 30000, thorough_runs: 600000, level: "exploration", rule: "one run = one simulated HTTP response body on the game stream (reference game of 0..300 moves incl. castling and promotions: gameFull once, gameState per move, chatLine / opponentGone interleaved) or on the event stream (gameStart, gameFinish, challenge, challengeCanceled, challengeDeclined); every optional field independently present/absent, every enumerated key cycled, string fields with JSON escapes / \\uXXXX / non-ASCII, random key order; the bytes are released in planned fragments (1, 2, 3.. bytes, inside UTF-8 sequences and escapes, between CR and LF) through a BufReader of capacity 1..8192 with keep-alive blank lines and Poll::Pending gaps; verdict = item count and order, every transmitted value found in the decoded value, move list element by element, each move accepted by UciMove::from_str, replay with make_uci gives the reference side to move, result equal to single-fragment delivery; distinct = distinct hash of (documents, fragmentation, buffer capacity)", assumptions: &["document shapes written from the Lichess Bot API documentation as remembered (no network here): only fields and keys I am certain of are verdict-bearing; `rules` is sent in the comma-separated form the decoder is written for", "futures::executor::block_on single-threaded; the reader's wake-ups are immediate so the execution is a function of the plan"], real: &["inkayaku_lichess_api::api::SurfWebClient::stream (line reassembly, blank-line skipping)", "BotApi::stream_bot_game_state / stream_incoming_events (serde models BotGameState / BotEvent)", "surf client + http-types Body/Response (real library code above the transport seam)", "inkayaku_uci::UciMove::from_str, inkayaku_board::Bitboard::make_uci (consumer logic of lichess_bot::GameThread re-applied by the harness)"], stubbed: &["TCP/TLS/HTTP transport (surf::Config::set_http_client -> SimHttp)", "lichess_bot::GameThread and main (private module of a binary crate; not executed)"], exit_on_violation: false },
+    CheckDef { id: "C18", sim: "table", sim_id: 18, quick_runs: 400000, thorough_runs: 10000000, level: "exploration", rule: "one run = one seeded history of 10..400 put/get/clear/len operations on a HashTable<ZobristHash,u64> of capacity 1..16 over a key universe of 2..40 keys (dense or spread over 64 bits; re-insertion of present and of evicted keys is the norm; every written value unique), compared after EVERY operation with a reference insertion-ordered FIFO map: every live key reads its value, every evicted/cleared key reads nothing, len <= capacity, load_factor = len/capacity; non-trivial = >= 5 operations; distinct = distinct hash of the key sequence", assumptions: &["reference FIFO map (a vector) is correct", "no schedule exists: the table is owned by the search thread alone; the simulated dimension is the operation history; the cache-size knob inside real searches is exercised by the EngineSim checks (TT capacity 1..1024, hashfull <= 1000 enforced by the output grammar, C08 exactness independent of capacity)"], real: &["inkayaku_engine_core::engine::table::HashTable<ZobristHash, u64> through the cfg-gated TableHandle"], stubbed: &["nothing"], exit_on_violation: false },
+    CheckDef { id: "C15", sim: "line", sim_id: 15, quick_runs: 30000, thorough_runs: 600000, level: "exploration", rule: "7 of 8 runs (LineSim): 300..600 command lines per run - grammar-generated with random spacing / parameter order / subsets, token- and byte-mutated (flip, drop, duplicate, swap, truncate, oversized numbers, bad move tokens, upper case, non-ASCII, duplicated go parameter), or arbitrary bytes - fed through the real ConsoleUciRx::start reader loop, each parse result compared with a reference parser (Exactly / MustErr / Unspecified), plus a 2048-triple slice of the 64x64x6 move-text space checked for display-parse round trip; 1 of 8 runs (EngineSim): a whole engine session whose lines travel through the same seam, so a panic kills the reader thread as in production and a misread shows by its effect; non-trivial = >= 10 lines; distinct = distinct hash of (line, parse result) sequence", assumptions: &["reference UCI parser sim/src/uciref.rs is correct (written from the UCI text and the behaviours pinned by the existing parser tests)", "separators are blanks only; tabs and grey-area syntax (signs, leading zeros, upper-case promotion letters) are classified Unspecified and only required not to panic and not to turn into a different command"], real: &["inkayaku_uci::console::ConsoleUciRx::start / read_next_command", "inkayaku_uci::parser::CommandParser", "inkayaku_uci::UciMove FromStr/Display", "inkayaku_core Square::from_chars, Fen::from_str"], stubbed: &["stdin (read closure)", "the engine behind on_command (LineSim runs); real engine in the EngineSim share"], exit_on_violation: true },
+    CheckDef { id: "C08", sim: "engine_exact", sim_id: 8, quick_runs: 10000, thorough_runs: 200000, level: "exploration", rule: "one run = one session of 2..9 cycles `position ...; go depth d` (d = 1..3, or 2N-1 on a position with a reference-proven mate in N) on ONE engine instance with randomised knobs (TT capacity down to 1, poll interval, node cost); after every cycle the reported score must equal the exact minimax value computed by the reference alpha-beta search (no TT/killers/PV reuse) with the engine's own static evaluation at the leaves, and the announced move must attain it; distinct = distinct event-log hash", assumptions: ENGINE_ASSUME, real: ENGINE_REAL, stubbed: ENGINE_STUB, exit_on_violation: true },
+    CheckDef { id: "C09", sim: "engine_interrupt", sim_id: 9, quick_runs: 96, thorough_runs: 2400, level: "fault_enumeration", rule: "one run = one plan (position, go depth d, poll interval 512): a dry run yields the poll node counts p1<..<pn (every node count at which the abort flag can be observed); the plan is then executed once per p_i (all of them up to 400, evenly thinned above) and per interrupt kind (stop, quit, simulated-clock movetime expiry), each followed by go depth 1 WITHOUT position, two more interrupted searches and go depth 1 again; evaluations = interrupted sessions executed; distinct = distinct (plan, interruption point, kind) event-log hashes", assumptions: ENGINE_ASSUME, real: ENGINE_REAL, stubbed: ENGINE_STUB, exit_on_violation: true },
+    CheckDef { id: "C01", sim: "board", sim_id: 1, quick_runs: 60000, thorough_runs: 1500000, level: "exploration", rule: BOARD_RULE, assumptions: BOARD_ASSUME, real: BOARD_REAL, stubbed: BOARD_STUB, exit_on_violation: false },
+    CheckDef { id: "C02", sim: "board", sim_id: 2, quick_runs: 60000, thorough_runs: 1500000, level: "exploration", rule: BOARD_RULE, assumptions: BOARD_ASSUME, real: BOARD_REAL, stubbed: BOARD_STUB, exit_on_violation: false },
+    CheckDef { id: "C03", sim: "board", sim_id: 3, quick_runs: 60000, thorough_runs: 1500000, level: "exploration", rule: BOARD_RULE, assumptions: BOARD_ASSUME, real: BOARD_REAL, stubbed: BOARD_STUB, exit_on_violation: false },
+    CheckDef { id: "C05", sim: "board", sim_id: 5, quick_runs: 40000, thorough_runs: 800000, level: "exploration", rule: BOARD_RULE, assumptions: BOARD_ASSUME, real: BOARD_REAL, stubbed: BOARD_STUB, exit_on_violation: false },
+    CheckDef { id: "C06", sim: "board", sim_id: 6, quick_runs: 60000, thorough_runs: 1500000, level: "exploration", rule: BOARD_RULE, assumptions: BOARD_ASSUME, real: BOARD_REAL, stubbed: BOARD_STUB, exit_on_violation: false },
+    CheckDef { id: "C12", sim: "board", sim_id: 12, quick_runs: 60000, thorough_runs: 1500000, level: "exploration", rule: BOARD_RULE, assumptions: BOARD_ASSUME, real: BOARD_REAL, stubbed: BOARD_STUB, exit_on_violation: false },
+    CheckDef { id: "C13", sim: "board", sim_id: 13, quick_runs: 60000, thorough_runs: 1500000, level: "exploration", rule: BOARD_RULE, assumptions: BOARD_ASSUME, real: BOARD_REAL, stubbed: BOARD_STUB, exit_on_violation: false },
+    CheckDef { id: "C14", sim: "board", sim_id: 14, quick_runs: 40000, thorough_runs: 800000, level: "exploration", rule: BOARD_RULE, assumptions: BOARD_ASSUME, real: BOARD_REAL, stubbed: BOARD_STUB, exit_on_violation: false },
 ];
 
 pub fn find(id: &str) -> Option<&'static CheckDef> {
